@@ -42,6 +42,7 @@ import warnings
 import numpy as np
 
 from ..gen import arrays as A
+from ..mon import siblings as S
 from ..mon.compare import compare_arrays
 
 PROP = "C28"
@@ -424,6 +425,76 @@ def _run_seeded(case, ctx):
     if a1.name == a2.name:
         ctx.count("seeded_same_name")
     ctx.sample = {"dist": dist, "api": api, "chunks": str(a1.chunks), "sched": case["sched"], "same_name": a1.name == a2.name}
+    # ---- sibling facet: same seed, ONE other distribution parameter / size / chunking / dtype: the arrays hold different
+    # draws and must not share keys.  Only for draws that are a function of the graph (seeded AND recomputation agreed);
+    # Generator.choice is not (live BitGenerator in the graph, known finding) and permutation is named from (x, index).
+    if dist not in ("permutation",) and not (dist == "choice" and api == "gen") and compare_arrays(v1b, v1, exact=True) is None:
+        sib = _sibling(case)
+        if sib is not None:
+            param, c2 = sib
+            S.check(ctx, "seeded:%s:%s" % (_apiname(api), _family(dist)), param, a1,
+                    (lambda: _draw(_generator(api, case["seed"]), api, c2)), va=v1,
+                    describe={k: v for k, v in c2.items() if case.get(k) != v})
+
+
+_TWEAK = {"loc": lambda v: v + 1.0, "scale": lambda v: v * 2.0, "low": lambda v: v - 1, "high": lambda v: v + 1,
+          "lam": lambda v: v + 1.0, "n": lambda v: v + 1, "p": lambda v: 0.25 if v == 0.5 else 0.5, "shape": lambda v: v + 1.0,
+          "a": lambda v: v + 1.0, "b": lambda v: v + 1.0, "df": lambda v: v + 1.0}
+
+
+def _sibling(case):
+    """(parameter, seeded case with that ONE parameter changed) or None"""
+    dist, api = case["dist"], case["api"]
+    shape = list(case["shape"])
+    srng = S.rng_for(case)
+    c2 = dict(case)
+    opts = []
+    if case["P"]:
+        opts += ["param", "param"]
+    if shape:
+        opts.append("size")
+    if case["chunks"]["t"] == "explicit" and any(n >= 2 for n in shape):
+        opts.append("chunks")
+    if dist == "random" and api == "gen":
+        opts.append("dtype")
+    if dist == "integers" and api == "gen":
+        opts.append("endpoint")
+    if dist == "choice":
+        opts.append("p")
+    if not opts:
+        return None
+    what = srng.choice(opts)
+    if what == "param":
+        keys = sorted(case["P"])
+        if case.get("arr") and dist == "integers":
+            keys = ["high"]        # the array-valued `low` is built below `high`
+        k = srng.choice(keys)
+        c2["P"] = dict(case["P"], **{k: _TWEAK[k](case["P"][k])})
+        return k, c2
+    if what == "size":
+        ax = srng.randrange(len(shape))
+        shape[ax] += 1
+        c2["shape"] = shape
+        if case["chunks"]["t"] == "explicit":
+            v = [list(c) for c in case["chunks"]["v"]]
+            v[ax][-1] += 1
+            c2["chunks"] = {"t": "explicit", "v": v}
+        return "size", c2
+    if what == "chunks":
+        for _ in range(8):
+            v = [list(c) for c in A.rand_chunks(srng, shape)]
+            if v != case["chunks"]["v"]:
+                c2["chunks"] = {"t": "explicit", "v": v}
+                return "chunks", c2
+        return None
+    if what == "dtype":
+        c2["f32"] = not case.get("f32")
+        return "dtype", c2
+    if what == "endpoint":
+        c2["endpoint"] = not case.get("endpoint")
+        return "endpoint", c2
+    c2["p"] = not case.get("p")
+    return "p", c2
 
 
 def _run_unseeded(case, ctx):
